@@ -354,9 +354,8 @@ func c15TyForDoc(r *rand.Rand, d *jdoc, depth int) cty.Type {
 		case 0:
 			atys[attrNames[r.Intn(len(attrNames))]] = genTy(r, 1, TyOpts{Dyn: true, Opt: true})
 		case 1:
-			for k := range atys {
-				delete(atys, k)
-				break
+			if ks := sortedKeys(atys); len(ks) > 0 { // never by Go map order: a seed must reproduce its cases
+				delete(atys, ks[r.Intn(len(ks))])
 			}
 		}
 		var opts []string
